@@ -450,7 +450,8 @@ class TopologicalNode(object):
 
         if self.pardim > 0:
             for child in self.lower_nodes[-1]:
-                if child.owner is self or child.owner is None:
+                # children owned by this node, directly or through an earlier transfer, follow it
+                if child.owner is self or child.owner is None or child.super_owner is new_owner:
                     child._transfer_ownership(new_owner)
 
     def generate_cp_numbers(self, start=0):
@@ -463,9 +464,11 @@ class TopologicalNode(object):
         numbers[:] = 0
 
         # Flag control points owned by other top-level objects with -1
-        for node, section in zip(self.lower_nodes[-1], sections(self.pardim, self.pardim-1)):
-            if node.owner is not self:
-                numbers[_section_to_index(section)] = -1
+        # (on sections of every dimension: a patch may touch an earlier one along an edge or a corner only)
+        for d in range(self.pardim):
+            for node, section in zip(self.lower_nodes[d], sections(self.pardim, d)):
+                if node.owner is not self:
+                    numbers[_section_to_index(section)] = -1
 
         # Fill in control point numbers for the ones we do own
         mask = np.where(numbers != -1)
@@ -490,11 +493,12 @@ class TopologicalNode(object):
 
     def read_cp_numbers(self):
         """Read control point numbers for unowned control points from child nodes."""
-        for node, section in zip(self.lower_nodes[-1], sections(self.pardim, self.pardim-1)):
-            if node.owner is not self:
-                # The two sections may not agree on orientation, so we fix this here.
-                ori = Orientation.compute(self.obj.section(*section), node.obj)
-                self.cp_numbers[_section_to_index(section)] = ori.map_array(node.cp_numbers)
+        for d in range(self.pardim):
+            for node, section in zip(self.lower_nodes[d], sections(self.pardim, d)):
+                if node.owner is not self:
+                    # The two sections may not agree on orientation, so we fix this here.
+                    ori = Orientation.compute(self.obj.section(*section, unwrap_points=False), node.obj)
+                    self.cp_numbers[_section_to_index(section)] = ori.map_array(node.cp_numbers)
 
         assert (self.cp_numbers != -1).all()
 
